@@ -17,32 +17,84 @@ def returns_of(fn):
     return r
 
 
+def _loops(n):
+    out = []
+    walk(n, lambda x: out.append(x) if x.get("k") in ("RangeFor", "For", "While", "Do") else None)
+    return out
+
+
+def _ref_d(e):
+    e = strip_all(e) if isinstance(e, dict) else e
+    return e.get("d") if isinstance(e, dict) and e.get("k") == "Ref" else None
+
+
+def _cell_index(e):
+    """index node of `_sketch_array[idx]`, else None"""
+    e = strip(e)
+    if isinstance(e, dict) and e.get("k") == "Index" and txt(e.get("b")) == "_sketch_array":
+        return e.get("i")
+    if isinstance(e, dict) and e.get("k") == "OpCall" and e.get("op") == "[]" and len(e.get("args", [])) == 2 and txt(e["args"][0]) == "_sketch_array":
+        return e["args"][1]
+    return None
+
+
 def addressing(facts):
+    """decided on declarations and data flow, not on the names of locals: which loop ranges over the row seeds / over the cells
+    returned by get_hashes, which local counts rows, which local receives the hash"""
+    from astu import single_assignment_locals
+    from triggers import plainly_assigned_locals
     fs = cm(facts)
     out = []
     for pat, fn in sorted(fs.items()):
         if fn["name"] == "get_hashes":
             key = "count_min_sketch::get_hashes:index-shape"
-            inl = {d: v["init"] for d, v in local_decls(fn).items() if v.get("init") is not None and v.get("const")}
-            loops = []
-            walk(fn["body"], lambda n: loops.append(n) if n.get("k") == "RangeFor" else None)
+            pa = {d: v[0] for d, v in plainly_assigned_locals(fn).items() if len(v) == 1}
+            loops = [l for l in _loops(fn["body"]) if l.get("k") == "RangeFor" and txt(l.get("range")) == "hash_seeds"]
             problems = []
-            if not loops or txt(loops[0]["range"]) != "hash_seeds":
+            if not loops:
                 problems.append("no loop over hash_seeds")
             else:
-                body = stmts_of(loops[0]["b"])
-                texts = [txt(s.get("e")).replace(" ", "") if s.get("k") == "Expr" else ";".join("%s=%s" % (v["n"], txt(v.get("init"))) for v in s.get("vars", [])) for s in body]
-                joined = " ; ".join(texts)
-                if not any(t == "(bucket_index=(hash%_num_buckets))" for t in texts):
-                    problems.append("bucket index is not `hash %% _num_buckets` (%s)" % [t for t in texts if "bucket_index=" in t])
-                if not any("push_back(((hash_seed_index*_num_buckets)+bucket_index))" in t for t in texts):
-                    problems.append("cell index is not row * _num_buckets + bucket_index")
-                if not any(t in ("(hash_seed_index+=1)", "++hash_seed_index", "hash_seed_index++") for t in texts):
-                    problems.append("row counter is not advanced once per hash seed")
-                if not any("MurmurHash3_x64_128(item,size,it," in t for t in texts):
+                L = loops[0]
+                E = (L.get("var") or {}).get("d")
+                pushes, murmurs, steps = [], [], []
+                walk(L["b"], lambda n: pushes.append(n) if n.get("k") == "Call" and n.get("cname") in ("push_back", "emplace_back") else None)
+                walk(L["b"], lambda n: murmurs.append(n) if n.get("k") == "Call" and n.get("cname") == "MurmurHash3_x64_128" else None)
+                walk(L["b"], lambda n: steps.append(_ref_d(n["e"])) if n.get("k") == "Un" and n.get("op") in ("++", "--") else None)
+                hs = None
+                if len(murmurs) != 1 or len(murmurs[0].get("args", [])) != 4 or [_ref_d(a) for a in murmurs[0]["args"][:3]] != [fn["params"][0]["d"], fn["params"][1]["d"], E]:
                     problems.append("hash is not MurmurHash3_x64_128(item, size, <row seed>, ..)")
+                else:
+                    hs = _ref_d(murmurs[0]["args"][3])
+                if len(pushes) != 1 or len(pushes[0].get("args", [])) != 1:
+                    problems.append("not exactly one cell index is produced per row")
+                else:
+                    v = strip_all(pushes[0]["args"][0])
+                    ok_shape = False
+                    row = None
+                    if v.get("k") == "Bin" and v.get("op") == "+":
+                        for m, o in ((v["l"], v["r"]), (v["r"], v["l"])):
+                            m, o = strip_all(m), strip_all(o)
+                            while o.get("k") == "Ref" and o.get("d") in pa:
+                                o = strip_all(pa[o["d"]])
+                            if m.get("k") == "Bin" and m.get("op") == "*" and "_num_buckets" in (txt(m["l"]), txt(m["r"])):
+                                r = m["l"] if txt(m["r"]) == "_num_buckets" else m["r"]
+                                row = _ref_d(r)
+                                if o.get("k") == "Bin" and o.get("op") == "%" and txt(o["r"]) == "_num_buckets":
+                                    h = strip_all(o["l"])
+                                    while h.get("k") == "Ref" and h.get("d") in pa:
+                                        h = strip_all(pa[h["d"]])
+                                    if h.get("k") == "Member" and h.get("f") == "h1" and _ref_d(h.get("b")) == hs and hs is not None:
+                                        ok_shape = True
+                                    else:
+                                        problems.append("bucket index is not `hash.h1 %% _num_buckets` of this row's hash (%s)" % txt(o))
+                                else:
+                                    problems.append("bucket index is not `hash %% _num_buckets` (%s)" % txt(o))
+                    if row is None:
+                        problems.append("cell index is not row * _num_buckets + bucket_index (%s)" % txt(v))
+                    elif steps.count(row) != 1 or any(x != row for x in steps):
+                        problems.append("row counter is not advanced exactly once per hash seed")
                 jumps = []
-                walk(loops[0]["b"], lambda n: jumps.append(n["k"]) if n.get("k") in ("If", "Continue", "Break") else None)
+                walk(L["b"], lambda n: jumps.append(n["k"]) if n.get("k") in ("If", "Continue", "Break") else None)
                 if jumps:
                     problems.append("conditional control flow inside the row loop (%s)" % jumps)
             if problems:
@@ -54,29 +106,79 @@ def addressing(facts):
             calls = []
             walk(fn["body"], lambda n: calls.append(n) if n.get("k") == "Call" and n.get("cname") == "get_hashes" else None)
             key = "count_min_sketch::%s(void*):cells-from-get_hashes" % fn["name"]
-            if len(calls) == 1 and [txt(a) for a in calls[0]["args"]] == ["item", "size"]:
+            if len(calls) == 1 and [_ref_d(a) for a in calls[0]["args"]] == [fn["params"][0]["d"], fn["params"][1]["d"]]:
                 out.append(ob("cm.index", key, fn["pat"], "discharged", "cells come from get_hashes(item, size)", fn["qname"]))
             else:
                 out.append(ob("cm.index", key, fn["pat"], "violated", "does not derive its cells from exactly one get_hashes(item, size) call", fn["qname"]))
-            loops = []
-            walk(fn["body"], lambda n: loops.append(n) if n.get("k") == "RangeFor" else None)
+            sa = single_assignment_locals(fn)
+            # loops over the cells: range-for (or an index / iterator loop the normaliser writes as one) over the local holding get_hashes(..)
+            cell_loops = []
+            for L in _loops(fn["body"]):
+                if L.get("k") == "RangeFor":
+                    r = strip_all(L.get("range") or {})
+                    src = strip_all(sa.get(r.get("d"))) if r.get("k") == "Ref" and r.get("d") in sa else r
+                    while isinstance(src, dict) and src.get("k") == "Construct" and len(src.get("args", [])) == 1:
+                        src = strip_all(src["args"][0])
+                    if isinstance(src, dict) and src.get("k") == "Call" and src.get("cname") == "get_hashes":
+                        cell_loops.append(L)
             if fn["name"] == "update":
                 key = "count_min_sketch::update(void*):adds-weight-once"
-                body = [txt(s.get("e")).replace(" ", "") for s in stmts_of(loops[0]["b"])] if loops else []
-                tot = [txt(s.get("e")).replace(" ", "") for s in stmts_of(fn["body"]) if s.get("k") == "Expr"]
-                # every write to a cell anywhere in update is an unconditional `+= weight` (linearity: merge adds cells, so update must too)
+                wd = fn["params"][2]["d"] if len(fn["params"]) > 2 else None
                 writes = []
-                walkp(fn["body"], lambda n, ps: writes.append((n, [p.get("k") for p in ps])) if n.get("k") == "Assign" and "_sketch_array" in txt(n["l"]) else None)
-                lin = all(n.get("op") == "+=" and txt(n["r"]) == "weight" and not any(k in ("If", "Cond", "While", "Do", "Switch") for k in ks) for n, ks in writes)
-                ok = body == ["(_sketch_array[h]+=weight)"] and len(loops) == 1 and len(writes) == 1 and lin and any(t.startswith("(_total_weight+=(" + C("(weight>=0)") + "?weight:-weight))") for t in tot)
-                if not lin:
-                    body = ["cell written by %s under %s" % (txt(n), [k for k in ks if k in ("If", "Cond", "While", "Do", "Switch")]) for n, ks in writes]
-                out.append(ob("cm.update", key, fn["pat"], "discharged" if ok else "violated", "each addressed cell += weight exactly once; total += |weight|" if ok else "update body is %s / %s: every addressed cell must receive `+= weight` exactly once and the total `+= |weight|`" % (body, tot), fn["qname"]))
+                walkp(fn["body"], lambda n, ps: writes.append((n, ps)) if n.get("k") == "Assign" and _cell_index(n["l"]) is not None else None)
+                probs = []
+                if len(cell_loops) != 1:
+                    probs.append("%d loops over the cells of get_hashes" % len(cell_loops))
+                if len(writes) != 1:
+                    probs.append("%d writes to cells" % len(writes))
+                for n, ps in writes:
+                    E = (cell_loops[0].get("var") or {}).get("d") if cell_loops else None
+                    cond = [p.get("k") for p in ps if p.get("k") in ("If", "Cond", "Switch")]
+                    inner = [p for p in ps if p.get("k") in ("RangeFor", "For", "While", "Do")]
+                    if n.get("op") != "+=" or _ref_d(n["r"]) != wd or _ref_d(_cell_index(n["l"])) != E or cond or inner != cell_loops[:1]:
+                        probs.append("cell written by `%s`%s" % (txt(n), (" under %s" % cond) if cond else ""))
+                # total weight += |weight| once, unconditionally, at the top level
+                tots = []
+                for st in stmts_of(fn["body"]):
+                    e = strip(st.get("e")) if st.get("k") == "Expr" else None
+                    if isinstance(e, dict) and e.get("k") == "Assign" and is_this_field(e["l"], ("_total_weight",)):
+                        tots.append(e)
+                tot_ok = False
+                if len(tots) == 1 and tots[0].get("op") == "+=":
+                    r = strip_all(tots[0]["r"])
+                    if r.get("k") == "Call" and r.get("cname") in ("abs", "fabs") and len(r.get("args", [])) == 1 and _ref_d(r["args"][0]) == wd:
+                        tot_ok = True
+                    if r.get("k") == "Cond":
+                        gp = gt_pair(r["c"])
+                        a, b = strip_all(r["a"]), strip_all(r["e"])
+                        neg = lambda x: x.get("k") == "Un" and x.get("op") == "-" and _ref_d(x.get("e")) == wd
+                        if gp and _ref_d(gp[0]) == wd and strip_all(gp[1]).get("v") == 0 and _ref_d(a) == wd and neg(b):
+                            tot_ok = True    # weight >= 0 (or > 0) ? weight : -weight
+                        if gp and _ref_d(gp[1]) == wd and strip_all(gp[0]).get("v") == 0 and neg(a) and _ref_d(b) == wd:
+                            tot_ok = True    # weight < 0 (or <= 0) ? -weight : weight
+                if not tot_ok:
+                    probs.append("total weight update is %s" % [txt(t) for t in tots])
+                ok = not probs
+                out.append(ob("cm.update", key, fn["pat"], "discharged" if ok else "violated", "each addressed cell += weight exactly once; total += |weight|" if ok else "update: %s: every addressed cell must receive `+= weight` exactly once and the total `+= |weight|`" % "; ".join(probs), fn["qname"]))
             else:
                 key = "count_min_sketch::get_estimate(void*):min-over-rows"
-                rets = [txt(r["e"]) for r in returns_of(fn)]
-                ok = len(rets) == 1 and "min_element(" in rets[0] and loops and [txt(s.get("e")).replace(" ", "") for s in stmts_of(loops[0]["b"])] == ["estimates.push_back(_sketch_array[h])"]
-                out.append(ob("cm.estimate", key, fn["pat"], "discharged" if ok else "violated", "estimate = min over the addressed cells" if ok else "estimate is `%s`: it must be the minimum over all addressed cells (never under-estimates only with min)" % rets, fn["qname"]))
+                rets = returns_of(fn)
+                ok = False
+                why = [txt(r["e"]) for r in rets]
+                if len(rets) == 1 and len(cell_loops) == 1:
+                    r = strip_all(rets[0]["e"])
+                    inner = strip_all(r.get("e") or (r.get("args") or [{}])[0]) if r.get("k") in ("Un", "OpCall") and r.get("op") == "*" else {}
+                    if inner.get("k") == "Call" and inner.get("cname") == "min_element" and len(inner.get("args", [])) == 2:
+                        b0, e0 = strip_all(inner["args"][0]), strip_all(inner["args"][1])
+                        V = _ref_d(b0.get("obj") or {}) if b0.get("k") == "Call" and b0.get("cname") == "begin" else None
+                        V2 = _ref_d(e0.get("obj") or {}) if e0.get("k") == "Call" and e0.get("cname") == "end" else None
+                        E = (cell_loops[0].get("var") or {}).get("d")
+                        body = stmts_of(cell_loops[0]["b"])
+                        if V is not None and V == V2 and len(body) == 1 and body[0].get("k") == "Expr":
+                            c = strip_all(body[0]["e"])
+                            if c.get("k") == "Call" and c.get("cname") in ("push_back", "emplace_back") and _ref_d(c.get("obj") or {}) == V and len(c.get("args", [])) == 1 and _ref_d(_cell_index(strip_all(c["args"][0])) or {}) == E:
+                                ok = True
+                out.append(ob("cm.estimate", key, fn["pat"], "discharged" if ok else "violated", "estimate = min over the addressed cells" if ok else "estimate is `%s`: it must be the minimum over all addressed cells (never under-estimates only with min)" % why, fn["qname"]))
         if fn["name"] == "get_lower_bound" and fn["params"] and fn["params"][0]["t"].startswith("const void"):
             rets = [txt(r["e"]) for r in returns_of(fn)]
             ok = rets == ["get_estimate(item,size)"]
@@ -148,17 +250,98 @@ def merge_rules(facts):
         ok = self_at is not None and (loop_at is None or self_at < loop_at)
         out.append(ob("cm.merge", key, fn["pat"], "discharged" if ok else "violated", "`if (this == &other) throw` precedes the merge loop" if ok else "self merge is not refused before cells are added", fn["qname"]))
         key = "count_min_sketch::merge:configuration-check"
-        need = {"number of hashes": "(get_num_hashes()==other_sketch.get_num_hashes())", "number of buckets": "(get_num_buckets()==other_sketch.get_num_buckets())", "seed (full 64 bits)": "(get_seed()==other_sketch.get_seed())"}
-        missing = [k for k, v in need.items() if v not in cfg_txt]
-        if cfg_at is not None and not missing and "||" not in cfg_txt and (loop_at is None or cfg_at < loop_at):
+        # truth table: with eqH / eqB / eqS := this and the other sketch agree on the number of hashes / of buckets / on the full
+        # seed (read through the getter or the field), some throwing guard before the cell loop must fire iff not all three hold
+        from astu import tt_eval, single_assignment_locals
+        sa = single_assignment_locals(fn)
+        other_d = fn["params"][0]["d"] if fn.get("params") else None
+
+        def fld(e):
+            """(is_other, canonical field name) of get_x() / x / _x on this or on the other sketch"""
+            e = strip_all(e)
+            if e.get("k") == "Call" and not e.get("args") and (e.get("cname") or "").startswith("get_"):
+                o = strip_all(e.get("obj") or {"k": "This"})
+                return (o.get("k") == "Ref" and o.get("d") == other_d, e["cname"][4:].lstrip("_"))
+            if e.get("k") == "Member" and e.get("isfield"):
+                o = strip_all(e.get("b") or {"k": "This"})
+                return (o.get("k") == "Ref" and o.get("d") == other_d, e["f"].lstrip("_"))
+            return None
+
+        def mk_atom(vals):
+            def atom(n):
+                if n.get("k") == "Bin" and n.get("op") in ("==", "!="):
+                    a, b2 = fld(n["l"]), fld(n["r"])
+                    if a and b2 and a[0] != b2[0] and a[1] == b2[1] and a[1] in vals:
+                        return vals[a[1]] if n["op"] == "==" else (not vals[a[1]])
+                return None
+            return atom
+        guards = [st[i] for i in range(len(st)) if st[i].get("k") == "If" and always_throws(st[i].get("t")) and i != self_at and (loop_at is None or i < loop_at)]
+        cfg_ok = bool(guards)
+        for h in (True, False):
+            for bk in (True, False):
+                for sd in (True, False):
+                    at = mk_atom({"num_hashes": h, "num_buckets": bk, "seed": sd})
+                    vals = [tt_eval(g["c"], at, sa) for g in guards]
+                    fires = True if any(v is True for v in vals) else (False if all(v is False for v in vals) else None)
+                    if fires is None or fires != (not (h and bk and sd)):
+                        cfg_ok = False
+        cfg_txt = " ; ".join(txt(g["c"], sa) for g in guards)
+        if cfg_ok:
             out.append(ob("cm.merge", key, fn["pat"], "discharged", "hashes, buckets and the full seed are compared; a mismatch throws before cells are added", fn["qname"]))
         else:
-            out.append(ob("cm.merge", key, fn["pat"], "violated", "the configuration check `%s` does not compare %s directly: sketches that address cells differently (e.g. different seeds with the same 16-bit seed hash) would be summed" % (cfg_txt[:160], missing or "all three"), fn["qname"]))
+            out.append(ob("cm.merge", key, fn["pat"], "violated", "the configuration check `%s` does not throw exactly when number of hashes, number of buckets or the full 64-bit seed differ: sketches that address cells differently (e.g. different seeds with the same 16-bit seed hash) would be summed" % cfg_txt[:200], fn["qname"]))
         key = "count_min_sketch::merge:cellwise-sum"
-        body = [txt(s.get("e")).replace(" ", "") for s in stmts_of(st[loop_at]["b"])] if loop_at is not None else []
-        tot = any(txt(s.get("e")).replace(" ", "") == "(_total_weight+=other_sketch.get_total_weight())" for s in st if s.get("k") == "Expr")
-        ok = loop_at is not None and "(*it+=*other_it)" in body and "++it" in body and "++other_it" in body and txt(st[loop_at].get("c")).replace(" ", "") == "(it!=_sketch_array.end())" and tot
-        out.append(ob("cm.merge", key, fn["pat"], "discharged" if ok else "violated", "every cell += the other sketch's cell; totals added" if ok else "merge loop is %s with total update %s: every cell must receive the other's cell exactly once and the totals must be added" % (body, tot), fn["qname"]))
+        # one loop; one write per iteration: this cell += the other sketch's cell at the same position; totals added once at top level
+        probs = []
+        L = st[loop_at] if loop_at is not None else None
+        writes = []
+        if L is not None:
+            walk(L, lambda n: writes.append(n) if n.get("k") == "Assign" else None)
+        pa_all = {}
+        from triggers import plainly_assigned_locals
+        inits = {d: v["init"] for d, v in local_decls(fn).items() if v.get("init") is not None}
+
+        def origin(e):
+            """("this" | "other", how) for an expression that walks this / the other cell array in step with the loop"""
+            e = strip_all(e)
+            if e.get("k") in ("Un", "OpCall") and e.get("op") == "*":
+                it = strip_all(e.get("e") or (e.get("args") or [{}])[0])
+                ini = strip_all(inits.get(it.get("d")) or {}) if it.get("k") == "Ref" else {}
+                while ini.get("k") == "Construct" and len(ini.get("args", [])) == 1:
+                    ini = strip_all(ini["args"][0])
+                if ini.get("k") == "Call" and ini.get("cname") in ("begin", "cbegin"):
+                    o = txt(ini.get("obj")) if ini.get("obj") is not None else "this"
+                    stepped = []
+                    walk(L, lambda n: stepped.append(n) if (n.get("k") in ("Un", "OpCall") and n.get("op") == "++" and _ref_d(n.get("e") or (n.get("args") or [{}])[0]) == it.get("d")) else None)
+                    if len(stepped) == 1:
+                        return ("other" if o.startswith("other") or (strip_all(ini.get("obj") or {}).get("d") == other_d) else "this", "iterator")
+                return None
+            if e.get("k") == "Ref" and L.get("k") == "RangeFor" and e.get("d") == (L.get("var") or {}).get("d"):
+                return ("this" if txt(L.get("range")) == "_sketch_array" else "other", "element")
+            ci = _cell_index(e)
+            if ci is not None:
+                return ("this", "index:" + txt(ci))
+            if e.get("k") in ("Index", "OpCall") and txt(e).startswith(("other_sketch._sketch_array[",)):
+                return ("other", "index:" + txt(e.get("i") or e["args"][1]))
+            return None
+        if L is None:
+            probs.append("no merge loop")
+        elif len(writes) != 1 or writes[0].get("op") != "+=":
+            probs.append("the loop writes %s" % [txt(w) for w in writes])
+        else:
+            lo, ro = origin(writes[0]["l"]), origin(writes[0]["r"])
+            if not lo or not ro or lo[0] != "this" or ro[0] != "other" or (lo[1].startswith("index") and lo[1] != ro[1]):
+                probs.append("the loop performs `%s`, not this cell += the other sketch's cell at the same position" % txt(writes[0]))
+            cond = []
+            walkp(L, lambda n, ps: cond.extend(p.get("k") for p in ps if p.get("k") in ("If", "Cond", "Switch")) if n is writes[0] else None)
+            if cond:
+                probs.append("the addition is conditional")
+        tots = [strip(x["e"]) for x in st if x.get("k") == "Expr" and isinstance(strip(x.get("e")), dict) and strip(x["e"]).get("k") == "Assign" and is_this_field(strip(x["e"])["l"], ("_total_weight",))]
+        tot = len(tots) == 1 and tots[0].get("op") == "+=" and fld(tots[0]["r"]) == (True, "total_weight")
+        if not tot:
+            probs.append("total weight update is %s" % [txt(t) for t in tots])
+        ok = not probs
+        out.append(ob("cm.merge", key, fn["pat"], "discharged" if ok else "violated", "every cell += the other sketch's cell; totals added" if ok else "merge: %s: every cell must receive the other's cell exactly once and the totals must be added" % "; ".join(probs), fn["qname"]))
         # linearity on every path: no early return past the checks (it would skip the cell sum or the total), and no write to the
         # cells other than the additive one (copying the other table replaces what was accumulated)
         rets = []
